@@ -276,6 +276,9 @@ def _run_scenario(spec, res):
                     _report_violation(spec, res, eng, model, o.label, bad, "witness")
                     if len(res.violations) >= spec.get("max_violations", 3):
                         return
+            if res.violations:
+                # a replayed violation is established for this scenario: do not spend solver time on its remaining VCs
+                return
         else:
             res.messages.append("path %d: no witness model found (feasibility unknown)" % pi)
         # ---- VCs
